@@ -18,6 +18,9 @@ var Registry = map[string]func(Tier) int{
 	"C11": C11,
 	"C06": C06,
 	"C12": C12,
+	"C18": C18,
+	"C16": C16,
+	"C17": C17,
 }
 
 // Systems used by `pcheck replay` to re-execute graph replays by name.
